@@ -11,7 +11,7 @@ CONSTANTS
   EnvShift = 0
   SkipLastBond = FALSE
   DropInnerTag = TRUE
-  AliasExcused = FALSE
+  StoreByRef = TRUE
   Emit = FALSE
 INVARIANT EnvConsistent
 CHECK_DEADLOCK FALSE
